@@ -10,13 +10,30 @@ var (
 	nilValue = reflect.ValueOf(nil)
 )
 
-func AssignValue(src, dst reflect.Value) error {
-	if dst.Type().Kind() != reflect.Ptr {
-		return fmt.Errorf("invalid dst type. required pointer type: %T", dst.Type())
+func AssignValue(src, dst reflect.Value) (err error) {
+	if !dst.IsValid() || dst.Type().Kind() != reflect.Ptr || dst.IsNil() {
+		return fmt.Errorf("invalid dst type. required non-nil pointer type")
 	}
-	casted, err := castValue(dst.Elem().Type(), src)
+	// the casts below lean on reflect: report what reflect refuses (unassignable field types,
+	// unexported fields, ...) as an error instead of letting the panic escape to the caller
+	defer func() {
+		if r := recover(); r != nil {
+			err = fmt.Errorf("failed to assign value to %s: %v", dst.Type().Elem(), r)
+		}
+	}()
+	target := dst.Elem().Type()
+	casted, err := castValue(target, src)
 	if err != nil {
 		return err
+	}
+	if !casted.IsValid() {
+		casted = reflect.Zero(target)
+	}
+	if !casted.Type().AssignableTo(target) {
+		if !casted.Type().ConvertibleTo(target) {
+			return fmt.Errorf("failed to assign value of type %s to %s", casted.Type(), target)
+		}
+		casted = casted.Convert(target) // e.g. string -> a named string type
 	}
 	dst.Elem().Set(casted)
 	return nil
